@@ -738,12 +738,17 @@ theorem gf_execC (o : COp) : KeepsG (execC o) := by
     split
     · exact hoare_conseq (hoare_of_keeps (keeps_emit _ _ (fun s (h : GF s) => h))) (fun _ h => h.1) (fun _ _ h => h) (fun _ h => h)
     · rename_i hnone
-      intro s ⟨hs, he⟩
-      subst he
-      refine hoare_newg o k hn s0 ⟨hs, ?_⟩
-      cases hl : alookup s0.srcs k with
-      | none => rfl
-      | some v => simp [hl] at hnone
+      apply hoare_bind (fun _ s => GF s ∧ alookup s.srcs k = none)
+      · apply hoare_modify
+        intro s ⟨hs, he⟩
+        subst he
+        refine ⟨hs, ?_⟩
+        show alookup s0.srcs k = none
+        cases hl : alookup s0.srcs k with
+        | none => rfl
+        | some v => simp [hl] at hnone
+      · intro _
+        exact hoare_newg o k hn
 macro_rules | `(tactic| gf_lemma) => `(tactic| with_reducible exact gf_execC _)
 
 theorem gf_runCb (k : Nat) (p : Payload) : KeepsG (runCb k p) := by unfold runCb; gf
